@@ -332,6 +332,20 @@ func cmdCheck(id, tier string, writeBaseline bool) int {
 			notClaimed++
 			continue
 		}
+		if r.Status == "unsupported" && !inBase && r.Kind == "subset" {
+			// a function whose obligations were discharged on the unchanged tree has left the modelled
+			// subset: those obligations can no longer be established
+			had := 0
+			for n := range base {
+				if strings.HasPrefix(n, r.Func+"#") {
+					had++
+				}
+			}
+			if had > 0 {
+				r.Detail = fmt.Sprintf("%d obligations of this function were discharged on the unchanged tree; the function is now outside the modelled subset: %s", had, r.Detail)
+				inBase = true
+			}
+		}
 		if r.Status == "unsupported" && !inBase {
 			unsupportedL = append(unsupportedL, r.Name+": "+r.Detail)
 			continue
